@@ -28,13 +28,22 @@ def stage(pid, tier, seed, wd, rep):
         r = vlib.tlc(d, "MC_SioSystem.tla", cfg, workers=workers, timeout=timeout, heap="6g")
         return r
 
-    # 1. the faithful model: system invariants over every interleaving of inputs, firings, deliveries and restarts
-    r = mc("MC_SioSystem.cfg" if tier == "quick" else "MC_SioSystem_6.cfg")
+    # 1. the faithful model: system invariants over every interleaving of inputs, firings, deliveries and restarts;
+    #    the same run prints one behaviour per state it generates (model -> code, step 3)
+    r = mc("MC_SioSystem_export.cfg" if tier == "quick" else "MC_SioSystem_export5.cfg")
     if not r["ok"]:
         raise vlib.CannotRun("SioSystem.tla: the system invariants do not hold on the model:\n" + r["out"][-3000:])
     gen += r["generated"]
     dist += r["distinct"]
     main_states = r["distinct"]
+    export_out = r["out"]
+    if tier != "quick":
+        r = mc("MC_SioSystem_6.cfg", workers=16, timeout=6000)
+        if not r["ok"]:
+            raise vlib.CannotRun("SioSystem.tla (depth 6): the system invariants do not hold on the model:\n" + r["out"][-3000:])
+        gen += r["generated"]
+        dist += r["distinct"]
+        main_states = r["distinct"]
     # 2. sensitivity: shapes that TLC must refute, and the idealised shape on which the scenario invariant holds
     for cfg, inv, what in NEG:
         r = mc(cfg)
@@ -42,17 +51,14 @@ def stage(pid, tier, seed, wd, rep):
         dist += r["distinct"]
         if r["ok"] or ("Invariant %s is violated" % inv) not in r["out"]:
             raise vlib.CannotRun("SioSystem.tla / %s: expected a refutation of %s (%s)\n%s" % (cfg, inv, what, r["out"][-1500:]))
-    r = mc("MC_SioSystem_relock_ideal.cfg")
+    r = mc("MC_SioSystem_relock_ideal.cfg" if tier == "quick" else "MC_SioSystem_relock_ideal5.cfg")
     gen += r["generated"]
     dist += r["distinct"]
     if not r["ok"]:
         raise vlib.CannotRun("SioSystem.tla: RelockScheduledUndisturbed should hold on the idealised shape:\n" + r["out"][-1500:])
-    # 3. model -> code: one behaviour per distinct model state, replayed on the real crew
-    r = mc("MC_SioSystem_export.cfg" if tier == "quick" else "MC_SioSystem_export5.cfg")
-    if not r["ok"]:
-        raise vlib.CannotRun("SioSystem.tla export failed:\n" + r["out"][-1500:])
+    # 3. model -> code: the exported behaviours are replayed on the real crew
     behs = set()
-    for line in r["out"].splitlines():
+    for line in export_out.splitlines():
         m = re.match(r'^"?BEH (<<.*>>)"?$', line.strip())
         if m:
             js = m.group(1).replace("<<", "[").replace(">>", "]").replace('\\"', '"')
